@@ -56,6 +56,12 @@ mod send {
             {
                 waker.wake();
             }
+            // `poll_flush` parks on `flush_waker` until everything written has been acknowledged
+            if self.sndbuf.is_all_rcvd()
+                && let Some(waker) = self.flush_waker.take()
+            {
+                waker.wake();
+            }
         }
 
         fn may_loss_data(&mut self, crypto_frame: &CryptoFrame) {
